@@ -70,6 +70,106 @@ func typesTrace(en *Env, t int, ncmd int) int {
 	}
 	typeNames := map[byte]string{0: "string", 1: "hash", 2: "set", 3: "list", 4: "zset"}
 	names := []string{"Set", "Get", "Del", "Type", "HSet", "HGet", "HDel", "SAdd", "SIsMember", "SRem", "LPush", "RPush", "LPop", "RPop", "ZAdd", "ZScore"}
+	// exec runs one command on the given service and returns its event and the outcome of the guard
+	exec := func(sv *datatype.DataTypeService, k int, c string, x int) (h.Ev, string) {
+		ev := h.Ev{"ev": "cmd", "k": k, "c": c, "x": 0, "v": 0, "sc": 0, "exp": false, "err": "ok", "b": false, "n": 0, "vres": 0, "tname": ""}
+		key := keyOf(k)
+		name := h.Guard(h.CallTimeout, func() error {
+			switch c {
+			case "Set":
+				vid, vb := vs.New(1 + r.Intn(40))
+				ttl := []time.Duration{0, -time.Second, time.Hour}[r.Intn(3)]
+				ev["v"], ev["exp"] = vid, ttl < 0
+				ev["err"] = typesErr(sv.Set(key, vb, ttl))
+			case "Get":
+				b, err := sv.Get(key)
+				ev["err"] = typesErr(err)
+				if err == nil && b != nil {
+					ev["vres"] = vs.ID(b)
+				}
+			case "Del":
+				ev["err"] = typesErr(sv.Del(key))
+			case "Type":
+				tb, err := sv.Type(key)
+				ev["err"] = typesErr(err)
+				if err == nil {
+					ev["tname"] = typeNames[tb]
+				}
+			case "HSet":
+				vid, vb := vs.New(1 + r.Intn(40))
+				ev["x"], ev["v"] = x, vid
+				b, err := sv.HSet(key, elemOf(x), vb)
+				ev["b"], ev["err"] = b, typesErr(err)
+			case "HGet":
+				ev["x"] = x
+				b, err := sv.HGet(key, elemOf(x))
+				ev["err"] = typesErr(err)
+				if err == nil && b != nil {
+					ev["vres"] = vs.ID(b)
+				}
+			case "HDel":
+				ev["x"] = x
+				b, err := sv.HDel(key, elemOf(x))
+				ev["b"], ev["err"] = b, typesErr(err)
+			case "SAdd":
+				ev["x"] = x
+				b, err := sv.SAdd(key, elemOf(x))
+				ev["b"], ev["err"] = b, typesErr(err)
+			case "SIsMember":
+				ev["x"] = x
+				b, err := sv.SIsMember(key, elemOf(x))
+				ev["b"], ev["err"] = b, typesErr(err)
+			case "SRem":
+				ev["x"] = x
+				b, err := sv.SRem(key, elemOf(x))
+				ev["b"], ev["err"] = b, typesErr(err)
+			case "LPush", "RPush":
+				ev["x"] = elemVal[x]
+				var sz uint32
+				var err error
+				if c == "LPush" {
+					sz, err = sv.LPush(key, elemOf(x))
+				} else {
+					sz, err = sv.RPush(key, elemOf(x))
+				}
+				ev["n"], ev["err"] = int(sz), typesErr(err)
+			case "LPop", "RPop":
+				var b []byte
+				var err error
+				if c == "LPop" {
+					b, err = sv.LPop(key)
+				} else {
+					b, err = sv.RPop(key)
+				}
+				ev["err"] = typesErr(err)
+				if err == nil && b != nil {
+					ev["vres"] = vs.ID(b)
+				}
+			case "ZAdd":
+				sc := 1 + r.Intn(3)
+				ev["x"], ev["sc"] = x, sc
+				b, err := sv.ZAdd(key, float64(sc), elemOf(x))
+				ev["b"], ev["err"] = b, typesErr(err)
+			case "ZScore":
+				ev["x"] = x
+				s, err := sv.ZScore(key, elemOf(x))
+				ev["err"] = typesErr(err)
+				if err == nil && s >= 0 {
+					ev["b"], ev["n"] = true, int(s)
+				}
+			}
+			return nil
+		})
+		return ev, name
+	}
+	type crashImg struct {
+		dir string
+		at  int // number of events of the trace that precede the interrupted command
+		cmd h.Ev
+	}
+	crashy := t%3 == 0 && cfg.IO == "std"
+	var images []crashImg
+	var history []h.Ev
 	n := 0
 	// a key tends to stay with one family for a while so that containers grow
 	family := map[int]int{}
@@ -101,98 +201,36 @@ func typesTrace(en *Env, t int, ncmd int) int {
 			}
 		}
 		x := 1 + r.Intn(4)
-		ev := h.Ev{"ev": "cmd", "k": k, "c": c, "x": 0, "v": 0, "sc": 0, "exp": false, "err": "ok", "b": false, "n": 0, "vres": 0, "tname": ""}
-		key := keyOf(k)
-		name := h.Guard(h.CallTimeout, func() error {
-			switch c {
-			case "Set":
-				vid, vb := vs.New(1 + r.Intn(40))
-				ttl := []time.Duration{0, -time.Second, time.Hour}[r.Intn(3)]
-				ev["v"], ev["exp"] = vid, ttl < 0
-				ev["err"] = typesErr(svc.Set(key, vb, ttl))
-			case "Get":
-				b, err := svc.Get(key)
-				ev["err"] = typesErr(err)
-				if err == nil && b != nil {
-					ev["vres"] = vs.ID(b)
+		// every third trace (standard I/O): the directory is copied at the entry of the first two writes to a data
+		// file that an updating command issues (process death there); the images are recovered after the trace
+		updating := c != "Get" && c != "Type" && c != "HGet" && c != "SIsMember" && c != "ZScore"
+		var taken []string
+		if crashy && updating && len(images) < 6 {
+			h.SetIOHandler(func(io h.IOEv) {
+				if io.Phase != 0 || io.Kind != "write" || len(taken) >= 2 {
+					return
 				}
-			case "Del":
-				ev["err"] = typesErr(svc.Del(key))
-			case "Type":
-				tb, err := svc.Type(key)
-				ev["err"] = typesErr(err)
-				if err == nil {
-					ev["tname"] = typeNames[tb]
+				if ref := h.RefOf(io.Path, dir); ref.D != 0 || ref.X != "data" {
+					return
 				}
-			case "HSet":
-				vid, vb := vs.New(1 + r.Intn(40))
-				ev["x"], ev["v"] = x, vid
-				b, err := svc.HSet(key, elemOf(x), vb)
-				ev["b"], ev["err"] = b, typesErr(err)
-			case "HGet":
-				ev["x"] = x
-				b, err := svc.HGet(key, elemOf(x))
-				ev["err"] = typesErr(err)
-				if err == nil && b != nil {
-					ev["vres"] = vs.ID(b)
-				}
-			case "HDel":
-				ev["x"] = x
-				b, err := svc.HDel(key, elemOf(x))
-				ev["b"], ev["err"] = b, typesErr(err)
-			case "SAdd":
-				ev["x"] = x
-				b, err := svc.SAdd(key, elemOf(x))
-				ev["b"], ev["err"] = b, typesErr(err)
-			case "SIsMember":
-				ev["x"] = x
-				b, err := svc.SIsMember(key, elemOf(x))
-				ev["b"], ev["err"] = b, typesErr(err)
-			case "SRem":
-				ev["x"] = x
-				b, err := svc.SRem(key, elemOf(x))
-				ev["b"], ev["err"] = b, typesErr(err)
-			case "LPush", "RPush":
-				ev["x"] = elemVal[x]
-				var sz uint32
-				var err error
-				if c == "LPush" {
-					sz, err = svc.LPush(key, elemOf(x))
-				} else {
-					sz, err = svc.RPush(key, elemOf(x))
-				}
-				ev["n"], ev["err"] = int(sz), typesErr(err)
-			case "LPop", "RPop":
-				var b []byte
-				var err error
-				if c == "LPop" {
-					b, err = svc.LPop(key)
-				} else {
-					b, err = svc.RPop(key)
-				}
-				ev["err"] = typesErr(err)
-				if err == nil && b != nil {
-					ev["vres"] = vs.ID(b)
-				}
-			case "ZAdd":
-				sc := 1 + r.Intn(3)
-				ev["x"], ev["sc"] = x, sc
-				b, err := svc.ZAdd(key, float64(sc), elemOf(x))
-				ev["b"], ev["err"] = b, typesErr(err)
-			case "ZScore":
-				ev["x"] = x
-				s, err := svc.ZScore(key, elemOf(x))
-				ev["err"] = typesErr(err)
-				if err == nil && s >= 0 {
-					ev["b"], ev["n"] = true, int(s)
-				}
-			}
-			return nil
-		})
+				img := en.FreshDir()
+				h.WithoutCapture(func() {
+					if h.CopyImage(dir, img, nil, nil) == nil {
+						taken = append(taken, img)
+					}
+				})
+			})
+		}
+		ev, name := exec(svc, k, c, x)
+		h.SetIOHandler(nil)
+		for _, img := range taken {
+			images = append(images, crashImg{img, len(history), ev})
+		}
 		if name != "ok" {
 			ev["err"] = name
 		}
 		en.T.Emit(ev)
+		history = append(history, ev)
 		n++
 		h.ExitIfStuck(name, en.T)
 		if name == "panic" {
@@ -207,11 +245,58 @@ func typesTrace(en *Env, t int, ncmd int) int {
 				on = cn
 			}
 			en.T.Emit(h.Ev{"ev": "restart", "err": on})
+			history = append(history, h.Ev{"ev": "restart", "err": on})
 			if on != "ok" {
 				return n
 			}
 		}
 	}
 	h.Guard(h.CallTimeout, func() error { return svc.Close() })
+	// every image is a trace of its own: the commands that preceded the interrupted one (as logged), the interrupted
+	// command as a "crashed" event (its effect took place entirely or not at all), the recovery, then commands on
+	// the interrupted key
+	for _, im := range images {
+		en.T.Emit(h.Ev{"ev": "reset", "n": nkeys, "seed": en.Seed, "prof": "types-crash", "cfg": cfg.Ev()})
+		for _, e := range history[:im.at] {
+			en.T.Emit(e)
+		}
+		ce := h.Ev{"ev": "crashed"}
+		for _, f := range []string{"k", "c", "x", "v", "sc", "exp"} {
+			ce[f] = im.cmd[f]
+		}
+		en.T.Emit(ce)
+		var sv *datatype.DataTypeService
+		on := h.Guard(h.CallTimeout, func() error {
+			var err error
+			sv, err = datatype.NewDataTypeService(cfg.Options(im.dir))
+			return err
+		})
+		en.T.Emit(h.Ev{"ev": "restart", "err": on})
+		if on == "ok" {
+			k := im.cmd["k"].(int)
+			fam := map[string][]string{"H": {"HSet", "HGet", "HGet", "HDel", "HDel"}, "S": {"SAdd", "SIsMember", "SIsMember", "SRem", "SRem"},
+				"L": {"LPush", "RPush", "LPop", "RPop"}, "R": {"LPush", "RPush", "LPop", "RPop"}, "Z": {"ZAdd", "ZScore", "ZScore"}}[im.cmd["c"].(string)[:1]]
+			if fam == nil || im.cmd["c"] == "Set" {
+				fam = []string{"Get", "Type", "HGet", "SIsMember", "LPop", "ZScore"}
+			}
+			for i := 0; i < 24; i++ {
+				c := fam[r.Intn(len(fam))]
+				if r.Intn(8) == 0 {
+					c = []string{"Type", "Get"}[r.Intn(2)]
+				}
+				ev, name := exec(sv, k, c, 1+r.Intn(4))
+				if name != "ok" {
+					ev["err"] = name
+				}
+				en.T.Emit(ev)
+				n++
+				if name == "panic" || name == "stuck" {
+					break
+				}
+			}
+			h.Guard(h.CallTimeout, func() error { return sv.Close() })
+		}
+		en.Drop(im.dir)
+	}
 	return n
 }
